@@ -33,7 +33,11 @@ def build_plan(tier, seed):
     rng.shuffle(main)
     fast = corpus.small_fast(main)
     runs = [
-        {"name": "main", "inputs": main, "form": "list", "batch_size": None, "n_jobs": 16, "threshold": 0},
+        # the big mixed set in medium batches (many different batch compositions; a batch in which the
+        # pipeline raises does not hide the others), and a part of it as one unbatched call
+        {"name": "main", "inputs": main, "form": "list", "batch_size": 25, "n_jobs": 16, "threshold": 0},
+        {"name": "main_unbatched", "inputs": corpus.sample(main, 120 if quick else 700, rng), "form": "list",
+         "batch_size": None, "n_jobs": 16, "threshold": 0},
         {"name": "batched7", "inputs": corpus.sample(fast, 42 if quick else 300, rng), "form": "dict",
          "batch_size": 7, "n_jobs": 4, "threshold": 0},
         {"name": "solo", "inputs": corpus.sample(fast, 10 if quick else 40, rng), "form": "list",
